@@ -93,6 +93,16 @@ func (this *partition) close() {
 	}
 }
 
+// A replica that is listed for the partition but whose raft group is not loaded (it was
+// added to the replica set a moment ago, or the group could not be started) has an
+// empty index: it has nothing to answer a read from.
+func (this *partition) isLoaded() bool {
+	this.raftMu.RLock()
+	defer this.raftMu.RUnlock()
+
+	return this.raft != nil
+}
+
 func (this *partition) len() int {
 	return this.index.Len()
 }
@@ -290,6 +300,9 @@ func (this *partition) batchRemove(ctx context.Context, items []*pb.BatchItem) (
 }
 
 func (this *partition) search(ctx context.Context, query []float32, k uint) (index.SearchResult, error) {
+	if !this.isLoaded() {
+		return nil, RaftNotLoadedOnNodeErr
+	}
 	return this.index.Search(ctx, query, k)
 }
 
